@@ -340,8 +340,8 @@ def _mk(kind, part, parts):
                 continue
             if kind == "grouping" and not name.startswith(("expr.", "if.", "for.", "assign.")):
                 continue
-            if kind != "scalar" and name.startswith("sidefx."):
-                continue          # known finding D25 concerns the reference semantics (C01), not optimisation
+            if name.startswith("sidefx."):
+                continue          # run by E2E.sidefx (C01 only): known finding D25 concerns the reference semantics of C01 alone
             _run_program(R, f"E2E.{kind}", name, prog, options, minimal, "nsl.Compiler::Compiler.Compile")
     f.__doc__ = {"scalar": "Each program of the family: VM result and globals equal the reference semantics for all inputs.",
                  "optimize": "Each program compiled with `optimize`: same result and globals as the reference semantics (hence as the unoptimised module) for all inputs.",
@@ -352,6 +352,15 @@ def _mk(kind, part, parts):
 for _k in ("scalar", "optimize", "grouping"):
     for _p in range(4):
         _mk(_k, _p, 4)
+
+
+@family("E2E.sidefx", props=["C01"], functions=["nsl.passes.RewriteAssignEqualOperations::RewriteAssignEqualVisitor.v_AssignmentExpression", "nsl.passes.LowerToIR::LowerToIRVisitor.v_AssignmentExpression", "nsl.VM::ExecutionContext.__Execute"],
+        assumptions=["curated programs with a side effect inside the target of a compound assignment; inputs symbolic; oracle refsem.py (the target is designated once)"])
+def e2e_sidefx(R):
+    """A side effect in the index of a compound-assignment target happens once."""
+    for name, prog in sorted(programs().items()):
+        if name.startswith("sidefx."):
+            _run_program(R, "E2E.scalar", name, prog, {}, False, "nsl.Compiler::Compiler.Compile")
 
 
 @family("E2E.history", props=["C15", "C03"], functions=["nsl.VM::VirtualMachine.Invoke", "nsl.VM::VirtualMachine.SetGlobal", "nsl.VM::VirtualMachine.GetGlobal", "nsl.VM::ExecutionContext.__Execute"],
